@@ -6,13 +6,35 @@
 #ifndef VF_SPINLOCK_H
 #define VF_SPINLOCK_H
 #include "env/spinlock_ghost.h"
+/* Optional lock-invariant hooks (a unit defines them before including this
+ * file): acquire havocs VF_LOCK_HAVOC (+ VF_LOCK_GHOST snapshots) and assumes
+ * VF_LOCK_INV, VF_LOCK_ENV and VF_LOCK_POST; release asserts VF_LOCK_INV. */
+#ifndef VF_LOCK_INV
+#define VF_LOCK_INV 1
+#endif
+#ifndef VF_LOCK_ENV
+#define VF_LOCK_ENV 1
+#endif
+#ifndef VF_LOCK_POST
+#define VF_LOCK_POST 1
+#endif
 
 static inline void ABTD_spinlock_acquire(ABTD_spinlock *p_lock)
 __CPROVER_requires(vf_lock_held == 0)
-__CPROVER_assigns(vf_lock_held, vf_lock_which, vf_acquires, vf_clock, vf_t_acquire)
+__CPROVER_assigns(vf_lock_held, vf_lock_which, vf_acquires, vf_clock, vf_t_acquire
+#ifdef VF_LOCK_HAVOC
+                  , VF_LOCK_HAVOC
+#endif
+#ifdef VF_LOCK_GHOST
+                  , VF_LOCK_GHOST
+#endif
+                  )
 __CPROVER_ensures(vf_lock_held == 1 && vf_lock_which == p_lock)
 __CPROVER_ensures(vf_acquires == __CPROVER_old(vf_acquires) + 1)
-__CPROVER_ensures(vf_clock == __CPROVER_old(vf_clock) + 1 && vf_t_acquire == vf_clock);
+__CPROVER_ensures(vf_clock == __CPROVER_old(vf_clock) + 1 && vf_t_acquire == vf_clock)
+__CPROVER_ensures(VF_LOCK_INV)
+__CPROVER_ensures(VF_LOCK_ENV)
+__CPROVER_ensures(VF_LOCK_POST);
 
 /* returns ABT_FALSE iff acquired; another thread may hold it, so the result is
  * not determined by the caller's state */
@@ -28,6 +50,7 @@ __CPROVER_ensures(__CPROVER_return_value == ABT_TRUE ==>
 
 static inline void ABTD_spinlock_release(ABTD_spinlock *p_lock)
 __CPROVER_requires(vf_lock_held == 1 && vf_lock_which == p_lock)
+__CPROVER_requires(VF_LOCK_INV) /* invariant re-established at every release */
 __CPROVER_assigns(vf_lock_held, vf_releases, vf_clock, vf_t_release)
 __CPROVER_ensures(vf_lock_held == 0 && vf_releases == __CPROVER_old(vf_releases) + 1)
 __CPROVER_ensures(vf_clock == __CPROVER_old(vf_clock) + 1 && vf_t_release == vf_clock);
